@@ -64,28 +64,28 @@ CLAIMED["C07"] = dict(
     design_ref="§4 C07")
 CLAIMED["C17"] = dict(
     category="exploration", engine="enum",
-    text="115 read/syntax-API requests (check GET/POST both variants, batch check, expand, list, list namespaces, syntax check; valid and invalid; known and never-seen names; write routes sent to the read/syntax ports; REST and gRPC) x 3 stored states, every sequence of length 1 and 2 (thorough: length 3 over representatives). Oracle: byte-level dump of ALL tables before = after; monitor: the SQL driver wrapper sees no write statement during a read-API request. Non-vacuity: each write route changes the dump. 'After a write' states: 2 base states x 8 write requests (successful, failing, name-mapping-only) followed by every single read request.",
+    text="115 read/syntax-API requests (check GET/POST both variants, batch check, expand, list, list namespaces, syntax check; valid and invalid; known and never-seen names; write routes sent to the read/syntax ports; REST and gRPC) x 3 stored states, every sequence of length 1 and 2 (thorough: length 3 over representatives). Oracle: byte-level dump of ALL tables before = after; monitor: the SQL driver wrapper sees no write statement during a read-API request. Non-vacuity: each write route changes the dump. 'After a write' states: 2 base states x 8 write requests (successful, failing, name-mapping-only) followed by every single read request. Every request also under a tenant without any row in the database; splice monitor: distinctive request strings may reach the database as bound arguments only. Candidates are confirmed on fresh servers.",
     note="SQLite only; REST batch check with a null element is exercised in C13's subprocess workers (it kills the process).",
     technique="bounded-exhaustive request-sequence enumeration with a whole-database dump invariant and an SQL statement monitor",
     design_ref="§4 C17")
 
 CLAIMED["C14"] = dict(
     category="model_checking", engine="vsched",
-    text="Schedule exploration of request PAIRS on one instrumented engine over a fixed store: every multiset of 2 requests from {check x3 (shared sub-graph, cyclic data), batch check, expand} under two configurations (a && !b, b || traverse), all interleavings up to deviation bound 1 (thorough 2) with storage calls as scheduling points; each request's answer must lie in the outcome set the same request produces alone over all schedules to the same bound. Complement: the same kinds of requests free-running under the Go race detector against the sqlite registry and its REST/gRPC servers, concurrent first requests on fresh registries and mixed with writes; every distinct race report is a violation keyed by the top keto frames of both accesses. Built as three passes: (1) alone sets, every exploration split across all workers; (2) pairs incl. a depth-variant of the same tuple through CheckRelationTuple and CheckIsMember, cancel phases under both canonical select picks, a pagination phase through one shared ManagerWrapper; (3) API pass: 16 read requests (list pages with different tokens / sizes, checks with different depths, batch, expand; REST and gRPC) of one network, every ordered pair, the first paused inside the SQL driver before each of its statements. The API pass includes lists over 150 names and the repeat oracle (the same request again, nothing else running, must answer the same); the race pass also runs two tenants with their own configuration sources.",
+    text="Schedule exploration of request PAIRS on one instrumented engine over a fixed store: every multiset of 2 requests from {check x3 (shared sub-graph, cyclic data), batch check, expand} under two configurations (a && !b, b || traverse), all interleavings up to deviation bound 1 (thorough 2) with storage calls as scheduling points; each request's answer must lie in the outcome set the same request produces alone over all schedules to the same bound. Complement: the same kinds of requests free-running under the Go race detector against the sqlite registry and its REST/gRPC servers, concurrent first requests on fresh registries and mixed with writes; every distinct race report is a violation keyed by the top keto frames of both accesses. Built as three passes: (1) alone sets, every exploration split across all workers; (2) pairs incl. a depth-variant of the same tuple through CheckRelationTuple and CheckIsMember, cancel phases under both canonical select picks, a pagination phase through one shared ManagerWrapper; (3) API pass: 16 read requests (list pages with different tokens / sizes, checks with different depths, batch, expand; REST and gRPC) of one network, every ordered pair, the first paused inside the SQL driver before each of its statements. The API pass includes lists over 150 names and the repeat oracle (the same request again, nothing else running, must answer the same); the race pass also runs two tenants with their own configuration sources. Thorough = the bound-1 passes (complete alone sets) followed by bound-2 passes as far as the cap allows.",
     note="The -race pass is not exhaustive (stated in evidence); cooperative scheduling cannot see data races; bounds: 2 concurrent requests, deviation bound.",
     technique="deviation-bounded stateless schedule exploration of concurrent requests on the instrumented implementation (differential against solo runs) + free-running race-detector pass",
     design_ref="§4 C14")
 
 CLAIMED["C19"] = dict(
     category="model_checking", engine="vsched",
-    text="keto's real oplConfigWatcher, NamespaceWatcher (JSON/YAML/TOML) and event loop, instrumented by tools/vinstr (profile config: sync/RWMutex with Go's writer preference, select, channels) run under the cooperative scheduler. A dispatcher thread feeds EVERY history of length <=3 (thorough 4) over {change f1 to V1/V2/syntactically bad/type-incorrect, remove f1, change f2 to W1/bad}; a reader thread takes two samples (Namespaces + GetNamespaceByName) and, for OPL, a reload thread calls ShouldReload; ALL interleavings up to deviation bound 2 are explored. Oracle per sample and per file: the visible namespaces of the file are exactly one valid version of it dispatched so far (never a subset, a mix or an invalid one); at quiescence every file shows its last valid version; no deadlock. Families over the KINDS of invalid content per format (cut off, left-over bytes, wrong value / field type, duplicate key, unterminated comment / string; histories <= 3, bound 1); a lookup-vs-set scenario on the real config.Config object (bound 2): the last namespaces value set is what is served afterwards.",
+    text="keto's real oplConfigWatcher, NamespaceWatcher (JSON/YAML/TOML) and event loop, instrumented by tools/vinstr (profile config: sync/RWMutex with Go's writer preference, select, channels) run under the cooperative scheduler. A dispatcher thread feeds EVERY history of length <=3 (thorough 4) over {change f1 to V1/V2/syntactically bad/type-incorrect, remove f1, change f2 to W1/bad}; a reader thread takes two samples (Namespaces + GetNamespaceByName) and, for OPL, a reload thread calls ShouldReload; ALL interleavings up to deviation bound 2 are explored. Oracle per sample and per file: the visible namespaces of the file are exactly one valid version of it dispatched so far (never a subset, a mix or an invalid one); at quiescence every file shows its last valid version; no deadlock. Families over the KINDS of invalid content per format (cut off, left-over bytes, wrong value / field type, duplicate key, unterminated comment / string; histories <= 3, bound 1); a lookup-vs-set scenario on the real config.Config object (bound 2): the last namespaces value set is what is served afterwards. The namespace content is observed (same class names, different relations); http OPL locations that differ in path / query (process-wide document cache).",
     note="File-system notification (watcherx/fsnotify) is replaced by the dispatcher; for OPL targets 'eventually' is judged only when the last version of every file is valid (one bad file blocks all updates by design).",
     technique="stateless model checking: exhaustive event-history enumeration x deviation-bounded schedule exploration of the instrumented implementation",
     design_ref="§4 C19")
 
 CLAIMED["C08"] = dict(
     category="exploration", engine="enum",
-    text="Bounded-exhaustive transport agreement on the real handlers (REST GET/POST on the status-mirroring and the openapi route, REST batch, gRPC Check via tuple field and flat fields, gRPC BatchCheck): 3 seeded stores x 2 configurations (rewrite-free and OR-only, so the free-running engine is deterministic) x 639 query tuples (subject id / subject set, known and unknown namespaces, adversarial strings) x 7 max-depth values; every batch sequence of length <=3 over an 8-letter alphabet plus batches at the configured maximum and maximum+1. Oracle: each transport's decision equals the engine's CheckIsMember on the mapped tuple; mirror route 200 iff allowed, 403 iff denied; unknown namespace never allowed; batch order/length preserved, batch(B)[i] = single(B[i]), an invalid entry changes no other entry; oversize and non-numeric depth are 4xx. Look-alike batch letters (a subject id spelled like a subject set, names containing the separators) so that two different tuples with the same human-readable rendering sit in one batch with different decisions; request-order family: every ordered pair of single checks on one connection / one process (GOMAXPROCS 1) - the second answer must not depend on the first request. The chain store under a global depth limit that binds (limit 2 < chain 3); max-depth values outside int32 on REST; batch entries under a storage failure at every SQL statement (generic / cancelled): an entry carries an error or is what it is without the failure.",
+    text="Bounded-exhaustive transport agreement on the real handlers (REST GET/POST on the status-mirroring and the openapi route, REST batch, gRPC Check via tuple field and flat fields, gRPC BatchCheck): 3 seeded stores x 2 configurations (rewrite-free and OR-only, so the free-running engine is deterministic) x 639 query tuples (subject id / subject set, known and unknown namespaces, adversarial strings) x 7 max-depth values; every batch sequence of length <=3 over an 8-letter alphabet plus batches at the configured maximum and maximum+1. Oracle: each transport's decision equals the engine's CheckIsMember on the mapped tuple; mirror route 200 iff allowed, 403 iff denied; unknown namespace never allowed; batch order/length preserved, batch(B)[i] = single(B[i]), an invalid entry changes no other entry; oversize and non-numeric depth are 4xx. Look-alike batch letters (a subject id spelled like a subject set, names containing the separators) so that two different tuples with the same human-readable rendering sit in one batch with different decisions; request-order family: every ordered pair of single checks on one connection / one process (GOMAXPROCS 1) - the second answer must not depend on the first request. The chain store under a global depth limit that binds (limit 2 < chain 3); max-depth values outside int32 on REST; batch entries under a storage failure at every SQL statement (generic / cancelled): an entry carries an error or is what it is without the failure. A namespace removed from / restored to the configuration at run time: no transport answers allowed for the unknown namespace.",
     note="Configurations restricted to those whose engine outcome is schedule independent (C01 shows singleton outcome sets for them); SQLite only.",
     technique="bounded-exhaustive request enumeration with a differential oracle between transports and the engine",
     design_ref="§4 C08")
@@ -104,7 +104,7 @@ CLAIMED["C16"] = dict(
 
 CLAIMED["C10"] = dict(
     category="exploration", engine="enum",
-    text="Every boolean expression tree with <=3 binary operators (thorough 4), every placement of `!` (<=2 per path), atoms realised by the four leaf kinds, each rendered in 4 parenthesis layouts (mixed, full, TypeScript-minimal, redundant), plus every `(` / `!(` wrapper string of length <=9: schema.Parse must accept it and the truth table of the parsed rewrite must equal the truth table an independent precedence-climbing evaluator (TypeScript precedence) computes from the rendered token string. Independently the full product of 12 spelling dimensions x 6 layouts on two documents and a comment in every token gap must parse to the source AST. Declaration-order variants: every permutation of namespace declarations and of relation/permission members for the two documents (forward references). 20 comment shapes (every form a comment's ends can take) in every token gap; result-lifetime pairs: the namespaces returned for document a are re-read after document b was parsed (every ordered pair).",
+    text="Every boolean expression tree with <=3 binary operators (thorough 4), every placement of `!` (<=2 per path), atoms realised by the four leaf kinds, each rendered in 4 parenthesis layouts (mixed, full, TypeScript-minimal, redundant), plus every `(` / `!(` wrapper string of length <=9: schema.Parse must accept it and the truth table of the parsed rewrite must equal the truth table an independent precedence-climbing evaluator (TypeScript precedence) computes from the rendered token string. Independently the full product of 12 spelling dimensions x 6 layouts on two documents and a comment in every token gap must parse to the source AST. Declaration-order variants: every permutation of namespace declarations and of relation/permission members for the two documents (forward references). 20 comment shapes (every form a comment's ends can take) in every token gap; result-lifetime pairs: the namespaces returned for document a are re-read after document b was parsed (every ordered pair). Identifier shapes (keyword prefixes followed by _ or a digit, digits, underscores) in every name role; unions naming a namespace plainly and through a SubjectSet, both orders and array spellings.",
     note="Only spellings the documented grammar/examples allow are demanded (others are listed in evidence as not demanded); end-to-end agreement of engine decisions with the parsed rewrite is C01's part (strict-mode configurations reach keto as OPL text).",
     technique="bounded-exhaustive program enumeration with a truth-table oracle from an independent evaluator (translation validation of the OPL front end on a finite grammar)",
     design_ref="§4 C10")
